@@ -454,7 +454,15 @@ func runStackScenario(id int, silent bool, n, t int, fault string, seed uint64, 
 				}
 				sc.SignOK++
 				if verifier {
-					if agg, err := v.AggregateSignatures(sigs, subIDs); err == nil && v.Verify(digest[:], agg) == nil {
+					// in the order of the session, and in reverse (the caller's order of the aligned lists must not matter)
+					m := len(sigs)
+					rs, rids := make([][]byte, m), make([]uint16, m)
+					for i := range sigs {
+						rs[i], rids[i] = sigs[m-1-i], subIDs[m-1-i]
+					}
+					agg, err := v.AggregateSignatures(sigs, subIDs)
+					ragg, rerr := v.AggregateSignatures(rs, rids)
+					if err == nil && v.Verify(digest[:], agg) == nil && rerr == nil && v.Verify(digest[:], ragg) == nil {
 						sc.Verified++
 					}
 				}
